@@ -9,7 +9,31 @@ sys.path.insert(0, HERE)
 import seeded
 
 
+def additive():
+    """Corrected twins of the ADDITIVE seeded changes (additive_twins/<name>): a correct new API, confirmed against the property
+    its seed attacked only -- so only that property's own check is expected to stay silent (the other 17 are reported for
+    information: a correct `clear()` for C18 may still leave stale queue entries, which is C14's business)."""
+    dirs = sorted(d for d in glob.glob(os.path.join(VERIF, "additive_twins", "*")) if os.path.isfile(os.path.join(d, "patch.diff")))
+    res = []
+    for d in dirs:
+        meta = json.load(open(os.path.join(d, "meta.json")))
+        own = "C" + os.path.basename(d)[1:3]
+        r = seeded.run_seed(d)
+        r["own_property"] = own
+        r["own_silent"] = own not in r.get("reported_by", [])
+        res.append(r)
+        print("%-8s own check %s: %-9s others reporting: %s" % (r["seed"], own, "silent" if r["own_silent"] else "REPORTED",
+                                                               ",".join(p for p in r.get("reported_by", []) if p != own) or "-"))
+        if not r["own_silent"]:
+            for v in r["details"][own][:2]:
+                print("      %s: %s" % (own, v[:220]))
+    json.dump(res, open(os.path.join(VERIF, "additive_twins", "RESULTS.json"), "w"), indent=1)
+    print("additive twins: %d, own check silent: %d" % (len(res), sum(1 for r in res if r["own_silent"])))
+
+
 def main():
+    if len(sys.argv) > 1 and sys.argv[1] == "additive":
+        return additive()
     names = sys.argv[2:] if len(sys.argv) > 2 else None
     dirs = sorted(d for d in glob.glob(os.path.join(VERIF, "benign", "*")) if os.path.isfile(os.path.join(d, "patch.diff")))
     if names:
